@@ -101,6 +101,10 @@ def pure_result(nid, nspec, beh, kwargs, rec_start=None):
         it = dict(tags).get(rec_start, 0)
         if it < beh['rec_n']:
             return ('rec', it + 1)
+    if 'labels' in beh:
+        # the label depends on the iteration the arguments belong to (switch nodes inside recurrent subgraphs)
+        it = max([t for _, t in tags], default=0)
+        return ('val', beh['labels'][min(it, len(beh['labels']) - 1)])
     if 'label' in beh:
         return ('val', beh['label'])
     kind = beh.get('value', 'prov')
@@ -223,10 +227,13 @@ def _enter(self_, kwargs):
 
 
 def _finish(run, self_, nid, inv, ent, kwargs):
-    nspec = run.nodes.get(nid) or {'id': nid, 'mode': 'thread', 'params': []}
+    nspec = getattr(self_, '_vk_spec', None) or run.nodes.get(nid) or {'id': nid, 'mode': 'thread', 'params': []}
     beh = getattr(self_, '_vk_beh', None)
+    rec_start = run.rec_start_of.get(nid)
     if beh is None:
         beh = run.beh.get(nid, {})
+    else:
+        rec_start = getattr(self_, '_vk_rec_start', None)
     out = outcome_at(beh, inv)
     ent['end'] = next_seq()
     ent['t_end'] = run.now()
@@ -236,7 +243,7 @@ def _finish(run, self_, nid, inv, ent, kwargs):
         ent['outcome'] = out
         ent['exc'] = exc
         raise exc
-    kind, v = pure_result(nid, nspec, beh, kwargs, run.rec_start_of.get(nid))
+    kind, v = pure_result(nid, nspec, beh, kwargs, rec_start)
     if kind == 'rec':
         ent['outcome'] = 'rec'
         ent['value'] = ('REC', v)
